@@ -14,6 +14,8 @@ package phantoms
 //                      spellings, /32, /128, duplicates, overlaps, zero / equal / large weights):
 //                      containment with a net/netip oracle, well-formedness, port-flag origin, determinism,
 //                      station entry point = client entry point.
+//   stage "fresh"      first selections of 2..32 goroutines on a NEW configuration object per round against one goroutine alone
+//                      on an identical new object (phantom_fresh_verif_test.go)
 //   stage "purity"     2..32 concurrent selectors (ungated) against the serial results, every library
 //                      version; for the small configurations each concurrent call is also recorded as an
 //                      event for Trace_Phantom (stage C).
@@ -420,6 +422,7 @@ func TestVerifPhantom(t *testing.T) {
 	vpStageReplay(t, out, tb, rng, thorough)
 	vpStageGenerated(t, out, rng, thorough)
 	vpStagePurity(t, out, tb, rng, thorough)
+	vpStageFresh(t, out, tb, rng, thorough)
 	out.Emit(map[string]any{"kind": "end"})
 }
 
